@@ -345,6 +345,7 @@ _installed = False
 real_allocate_lock = _thread.allocate_lock
 real_Thread = None
 real_Event = None
+_real_time = None
 
 
 def install():
@@ -357,6 +358,8 @@ def install():
         if m in sys.modules:
             raise RuntimeError("world.install() after the toolkit was imported")
     import socket, select, time, threading, random, signal
+    global _real_time
+    _real_time = (time.sleep, time.time, time.monotonic, time.monotonic_ns)
     _fabric = Fabric()
     socket.socket = FakeSocket
     select.select = fake_select
@@ -382,6 +385,30 @@ def install():
     if TOOLKIT not in sys.path:
         sys.path.insert(0, TOOLKIT)
     _installed = True
+
+
+_saved = {}
+
+
+def suspend():
+    """Give the real threading/time primitives back (multiprocessing needs them)."""
+    if not _installed:
+        return
+    import threading, time
+    _saved.update(Thread=threading.Thread, Event=threading.Event, Lock=threading.Lock,
+                  sleep=time.sleep, time=time.time, monotonic=time.monotonic, monotonic_ns=time.monotonic_ns)
+    threading.Thread, threading.Event, threading.Lock = real_Thread, real_Event, real_allocate_lock
+    time.sleep, time.time, time.monotonic, time.monotonic_ns = _real_time
+
+
+def resume():
+    if not _installed or not _saved:
+        return
+    import threading, time
+    threading.Thread, threading.Event, threading.Lock = _saved["Thread"], _saved["Event"], _saved["Lock"]
+    time.sleep, time.time, time.monotonic, time.monotonic_ns = (_saved["sleep"], _saved["time"],
+                                                                _saved["monotonic"], _saved["monotonic_ns"])
+    _saved.clear()
 
 
 def new_fabric():
